@@ -10,6 +10,6 @@ git apply --check $D/patch.diff || { echo "$(basename $D): patch does not apply 
 git apply $D/patch.diff
 for c in "$@"; do
   B=$(basename $D); LOG=/verif/out/try_${B}_$c.log
-  ( cd /verif && VERIF_REPO=$WT timeout 2400 ./check $c --tier ${TIER:-quick} > $LOG 2>&1; RC=$?; echo "$B $c exit=$RC $(grep -c '^VIOLATION' $LOG) violation-lines; $(grep 'violation detail' $LOG | head -1 | cut -c1-220)" )
+  ( cd /verif && VERIF_REPO=$WT timeout 3000 ./check $c --tier ${TIER:-quick} > $LOG 2>&1; RC=$?; echo "$B $c exit=$RC $(grep -c '^VIOLATION' $LOG) violation-lines; $(grep 'violation detail' $LOG | head -1 | cut -c1-220)" )
 done
-cd $WT && git checkout -q -- . && git clean -fdq crates; rm -rf /verif/out/traces_alt_*
+cd $WT && git checkout -q -- . && git clean -fdq crates; true
